@@ -43,11 +43,12 @@ class Frame:
 class Loop:
     """Loop contract: invariant, extra havoc targets, variant."""
 
-    def __init__(self, inv, modifies=(), decreases=None, name=None):
+    def __init__(self, inv, modifies=(), decreases=None, name=None, lemmas=None):
         self.inv = inv
         self.modifies = list(modifies)
         self.decreases = decreases
         self.name = name
+        self.lemmas = lemmas   # instances of separately proved lemmas, assumed before inv:step
 
 
 class LoopState:
@@ -476,11 +477,12 @@ class Interp:
         # iteration domain for `for`
         lo = hi = None
         seq = None
+        step = 1
         if is_for:
             if isinstance(it, RangeVal):
-                if it.step != 1:
+                if it.step not in (1, -1):
                     self.unsupported("range step in contracted loop", node)
-                lo, hi = it.start, it.stop
+                lo, hi, step = it.start, it.stop, it.step
             elif isinstance(it, PList) and it.is_sym():
                 lo, hi, seq = 0, mk_int(z3.Length(it.sym)), it
             elif isinstance(it, PList):
@@ -503,12 +505,12 @@ class Interp:
         k = None
         if is_for:
             k = self.fresh_int("k")
-            self.assume(z3.And(zi(lo) <= k.z))
+            self.assume(zi(lo) <= k.z if step == 1 else zi(lo) >= k.z)
         st = LoopState(self, frame, k=k, entry=entry)
         if mode == 0:
             # ---- one arbitrary iteration
             if is_for:
-                self.assume(k.z < zi(hi))
+                self.assume(k.z < zi(hi) if step == 1 else k.z > zi(hi))
                 self.assume(_conj(spec.inv(st)))
                 if seq is None:
                     x = k
@@ -533,9 +535,12 @@ class Interp:
             except _Break:
                 return  # leaves the loop with the state at the break
             if is_for:
-                st1 = LoopState(self, frame, k=mk_int(k.z + 1), entry=entry)
+                st1 = LoopState(self, frame, k=mk_int(k.z + step), entry=entry)
             else:
                 st1 = LoopState(self, frame, k=None, entry=entry)
+            if spec.lemmas is not None:
+                for fact in spec.lemmas(st1):
+                    self.path.assume(fact, check=False)
             self.check(f"inv:step:{lname}", _conj(spec.inv(st1)), None)
             if not is_for:
                 if spec.decreases is None:
@@ -546,13 +551,14 @@ class Interp:
             raise PathEnd()
         # ---- exit path
         if is_for:
-            # k = max(lo, hi)
-            self.assume(k.z == z3.If(zi(lo) <= zi(hi), zi(hi), zi(lo)))
+            # k = max(lo, hi) (step 1) / min(lo, hi) (step -1)
+            nonempty = zi(lo) < zi(hi) if step == 1 else zi(lo) > zi(hi)
+            self.assume(k.z == z3.If(nonempty, zi(hi), zi(lo)))
             self.assume(_conj(spec.inv(st)))
             # python leaves the loop variable at the last value
             if seq is None and isinstance(node.target, ast.Name):
-                if self.path.branch(zi(lo) < zi(hi)):
-                    frame.locals[node.target.id] = mk_int(k.z - 1)
+                if self.path.branch(nonempty):
+                    frame.locals[node.target.id] = mk_int(k.z - step)
                 elif node.target.id in entry:
                     frame.locals[node.target.id] = entry[node.target.id]
                 else:
